@@ -371,11 +371,11 @@ func c11ReadMore(p *P, r *R) {
 	moveTo := p.mCall("(*pendingData).moveTo")
 	// before the first wait
 	okBefore := false
-	for _, mi := range findInstrs(f, moveTo) {
-		if instrDominates(mi, sel) && !p.reaches(sel, mi, nil) {
+	allInstrs(f, func(mi ssa.Instruction) {
+		if p.evMust(mi, moveTo, 2) && instrDominates(mi, sel) && !p.reaches(sel, mi, nil) {
 			okBefore = true
 		}
-	}
+	})
 	r.ob("R11.4", "readMore: buffered and pending data is checked before the first wait", p.ipos(sel), okBefore, true, "")
 	// after each wake-up arm (recvNotifyCh, closeNotifyCh): moveTo, then Len() >= minSize test
 	for i, st := range sel.States {
@@ -400,8 +400,9 @@ func c11ReadMore(p *P, r *R) {
 			r.fail("R11.4", "readMore: arm of "+k, p.ipos(sel), "arm block not found")
 			continue
 		}
-		res := p.mustPass(f, []Point{{arm, -1}}, moveTo.F, func(b *ssa.BasicBlock, si int) bool { return true }, nil)
-		loopBack := p.reachesWithout(Point{arm, -1}, sel, moveTo.F, nil)
+		moved := func(in ssa.Instruction) bool { return p.evMust(in, moveTo, 2) } // directly or in a refill helper
+		res := p.mustPass(f, []Point{{arm, -1}}, moved, func(b *ssa.BasicBlock, si int) bool { return true }, nil)
+		loopBack := p.reachesWithout(Point{arm, -1}, sel, moved, nil)
 		r.ob("R11.4", "readMore: after a wake-up on "+k+" pending data is moved and re-checked before waiting again", p.ipos(sel), res.OK && !loopBack, true, "%s", p.pathString(res))
 	}
 	// deadline timer: armed from readDeadline before the loop, stopped on exit
